@@ -135,7 +135,8 @@ def _tlc_cfg(module, text, tag, env=None, timeout=1500, workers=None):
     cfgp = os.path.join(vlib.SPEC, "_gen_C03_%s.cfg" % tag)
     open(cfgp, "w").write(text)
     try:
-        return vlib.tlc(PID, module, os.path.basename(cfgp), timeout=timeout, tag=tag, env=env, workers=workers)
+        return vlib.tlc(PID, module, os.path.basename(cfgp), timeout=timeout, tag=tag, env=env, workers=workers,
+                        extra=["-noGenerateSpecTE"])     # no *_TTrace_* files in spec/ when an invariant is (meant to be) violated
     finally:
         os.remove(cfgp)
 
@@ -219,7 +220,7 @@ def simulate_hists(v, n, length, num):
     open(cfgp, "w").write(cfg)
     try:
         r = vlib.tlc(PID, "Coroutine", os.path.basename(cfgp), timeout=1200, tag="sim_%d" % n, simulate=num, depth=length + 1,
-                     extra=["-seed", str(vlib.seed())], workers=1)
+                     extra=["-seed", str(vlib.seed()), "-noGenerateSpecTE"], workers=1)
     finally:
         os.remove(cfgp)
     if r.error or r.violated:
@@ -317,6 +318,9 @@ def run_and_validate(v, exe, mode, script_text, tag, out, stats, parallel=8):
         for rj in tv.rejects:
             if rj["rule"].startswith("harness-"):
                 raise vlib.MachineryError("trace spec reports a harness problem: %s" % rj)
+            stats["rules_fired"][rj["rule"]] = stats["rules_fired"].get(rj["rule"], 0) + 1
+            if stats["rules_fired"][rj["rule"]] > 1:
+                continue        # one replay file per rule is enough
             hist = vlib.extract_history(tp, rj["line"], start_ops=("init",), key="e")
             try:
                 hid = json.loads(hist[0]).get("h")
@@ -328,7 +332,6 @@ def run_and_validate(v, exe, mode, script_text, tag, out, stats, parallel=8):
                 m = re.search(r"(?ms)^hist %d .*?^end\n" % hid, open(sp).read())
                 body = m.group(0) if m else ""
             rp = vlib.save_replay(PID, "viol_%s_%s_h%s.%s.txt" % (tag, rj["rule"][:40], hid, mode), body or "".join(hist))
-            stats["rules_fired"][rj["rule"]] = stats["rules_fired"].get(rj["rule"], 0) + 1
             v.violation("C03|" + rj["rule"], rp, "%s at line %d of %s: %s" % (rj["rule"], rj["line"], tp, rj["detail"][:260]))
     return nh
 
@@ -377,14 +380,14 @@ def run(tier, replay=None):
         model_check(v, 2, 60, "Coroutine.tla N=2: all interleavings (complete state graph), control-transfer invariants")
         model_check(v, 3, 7, "Coroutine.tla N=3, histories <= 7 ops, control-transfer invariants")
         sets = [(2, export_hists(v, 2, 60, "export: one shortest history per (state,last op), N=2"), 2200),
-                (3, export_hists(v, 3, 5, "export: one shortest history per (state,last op), N=3, <= 5 ops"), 1300)]
+                (3, export_hists(v, 3, 5, "export: N=3, one shortest history per (state,last op) up to 5 ops and every one-op extension of those"), 1300)]
         sims = [(4, simulate_hists(v, 4, 40, 60))]
         nproc = 120
     else:
         model_check(v, 2, 60, "Coroutine.tla N=2: all interleavings (complete state graph), control-transfer invariants")
         model_check(v, 3, 9, "Coroutine.tla N=3, histories <= 9 ops, control-transfer invariants")
         sets = [(2, export_hists(v, 2, 60, "export: one shortest history per (state,last op), N=2"), None),
-                (3, export_hists(v, 3, 6, "export: one shortest history per (state,last op), N=3, <= 6 ops"), 30000)]
+                (3, export_hists(v, 3, 6, "export: N=3, one shortest history per (state,last op) up to 6 ops and every one-op extension of those"), 30000)]
         sims = [(4, simulate_hists(v, 4, 60, 400)), (6, simulate_hists(v, 6, 120, 200))]
         nproc = 1500
     chosen = []
@@ -423,7 +426,7 @@ def run(tier, replay=None):
     v.cov["rule"] = ("one case = one history (sequence of start/resume/transfer/yield/exit/return/stop/reset ops, each run by whichever coroutine "
                      "is current) or one process program, executed in a forked child; evaluations = arrivals after a real context switch at which "
                      "registers, MXCSR, canaries, stack hash, continuation site and message were compared by the trace spec, plus function "
-                     "entries and exit-function calls; distinct = distinct op sequences (TLC-exported ones are one per (state,last op)) plus "
+                     "entries and exit-function calls; distinct = distinct op sequences (TLC-exported: one shortest history per (model state,last op), at the length bound every one-op extension; TLC-simulated long ones) plus "
                      "seeded process programs; every history contains at least one real switch")
     v.cov["exhaustive"] = False
     return v.finish()
